@@ -937,7 +937,10 @@ class Sym:
                 f = atom(f"bool({res.key})")
                 parts.append(f if isinstance(op, ast.In) else f_not(f))
             else:
-                parts.append(self.compare(left, op, right, st))
+                f = self.compare(left, op, right, st)
+                if isinstance(op, (ast.In, ast.NotIn)) and isinstance(right, Opq) and f[0] in ("atom", "not"):
+                    self.emit("member", "in", [left], right, st, ctx, e, ("unknown",), BoolV(f if isinstance(op, ast.In) else f_not(f), deps))
+                parts.append(f)
             left = right
         return BoolV(f_and(parts), deps)
 
@@ -1134,6 +1137,7 @@ class Sym:
         if len(self.loops) > fr.base_loops:
             fr.yields_exact = False
         fr.__dict__.setdefault("yield_sites", []).append((v, tuple(st.path), tuple(self.loops[fr.base_loops:])))
+        self._yield_feedback(st)
         return Opq("<yield>")
 
     def _e_YieldFrom(self, e, st, ctx):
@@ -1219,6 +1223,7 @@ class Sym:
             if isinstance(g.iter, ast.Call):
                 self.eager.add(id(g.iter))
             it = self.eval(g.iter, st, ctx)
+            it = self.iterate(it, g.iter, st, ctx, [*elts, *g.ifs, *[x for g2 in e.generators[gi + 1:] for x in (g2.iter, *g2.ifs)]])
             st.path[:] = saved
             items = self.exact_items(it, st)
             if items is not None and len(items) <= MAX_UNROLL:
@@ -1615,6 +1620,8 @@ class Sym:
             return BoolV(atom(f"{name}({key(args[0])})"), deps)
         if name in ("set", "list", "tuple", "dict", "frozenset") and not args and not kwargs:
             return self.new_coll(st, "set" if name == "frozenset" else name)
+        if name in COMPLETE_BUILTINS and len(args) == 1 and e.args and not isinstance(e.args[0], ast.Starred):
+            args = [self.iterate(args[0], e.args[0], st, ctx, [])]
         if name in COMPLETE_BUILTINS and len(args) == 1:
             kind = {"frozenset": "set", "sorted": "list", "reversed": "list"}.get(name, name)
             items = self.exact_items(args[0], st)
@@ -2018,6 +2025,8 @@ class Sym:
             st.store[k] = Opq(f"{k}@L{n}", self.deps(b, st), kind="attr")
         for name in names - set(skip):
             st.vars[name] = Opq(f"{name}@L{n}", kind="havoc")
+        if any(isinstance(x, (ast.Yield, ast.YieldFrom)) for b in body for x in ast.walk(b)):
+            self._yield_feedback(st)  # the consumer ran between the elements this loop produced
         del self.events[saved_events:]
 
     def _iteration(self, body: list[ast.stmt], st: State, ctx: FuncInfo) -> tuple[State | None, list[State]]:
@@ -2074,10 +2083,88 @@ class Sym:
                 return merged
         return after
 
+    def iterate(self, it: Val, node: ast.expr, st: State, ctx: FuncInfo, consumer: list[ast.AST] | None, complete: bool = True) -> Val:
+        """`for x in obj` / `list(obj)` / a comprehension over an object of the repository: what its `__iter__` produces.
+        A generator `__iter__` is interpreted eagerly (only when the consumer takes every element).  `consumer` is the code
+        that runs between two elements; when it can reach the object (it names the expression that is iterated) the fields
+        of the object that its other methods mutate are forgotten at every `yield` (walk.schedule(node) inside the loop)."""
+        if isinstance(it, Phi) or not isinstance(it, (Ref, Opq)) or (isinstance(it, Opq) and it.kind not in ("attr", "param", "call", "item", "elem")):
+            return it
+        cls = self.classes_of(it, node, ctx)
+        if len(cls) != 1:
+            return it
+        impls = self.repo.implementations(cls[0], "__iter__") if isinstance(it, Opq) else [self.repo.lookup_method(cls[0], "__iter__")]
+        impls = [m for m in impls if m is not None and not m.is_abstract]
+        if len(impls) != 1:
+            return it
+        fi = impls[0]
+        if is_generator(fi) and not complete:
+            return it
+        call = ast.Call(func=ast.Attribute(value=node, attr="__iter__", ctx=ast.Load()), args=[], keywords=[])
+        ast.copy_location(call, node)
+        ast.fix_missing_locations(call)
+        self.eager.add(id(call))
+        names = {norm(node)} | ({node.id} if isinstance(node, ast.Name) else set())
+        reachable = consumer is None or any(isinstance(n, (ast.Name, ast.Attribute)) and norm(n) in names for b in consumer for n in ast.walk(b))
+        saved = self.__dict__.get("_feedback")
+        self._feedback = (it, fi, self._consumer_mutable_fields(cls[0], fi)) if (reachable and isinstance(it, Ref)) else None
+        try:
+            return self.call_function(fi, it, [], {}, st, call, ctx)
+        finally:
+            self._feedback = saved
+
+    def _consumer_mutable_fields(self, ci: ClassInfo, gen: FuncInfo) -> set[str] | None:
+        """Fields of `ci` objects that a method other than the constructor and the generator itself assigns or mutates."""
+        out: set[str] = set()
+        for c in self.repo.mro(ci):
+            for m in [*c.methods.values(), *c.extra_methods]:
+                if m.name in ("__init__", "__post_init__") or m.fq == gen.fq or isinstance(m.node, ast.Lambda) or not m.param_names:
+                    continue
+                me = m.param_names[0]
+                for n in ast.walk(m.node):
+                    tgt = None
+                    if isinstance(n, ast.Attribute) and isinstance(n.ctx, (ast.Store, ast.Del)):
+                        tgt = n
+                    elif isinstance(n, ast.Call) and isinstance(n.func, ast.Attribute) and n.func.attr in COLL_MUTATORS:
+                        tgt = n.func.value
+                    elif isinstance(n, ast.Subscript) and isinstance(n.ctx, (ast.Store, ast.Del)):
+                        tgt = n.value
+                    elif isinstance(n, ast.AugAssign):
+                        tgt = n.target
+                    if isinstance(tgt, ast.Attribute) and isinstance(tgt.value, ast.Name) and tgt.value.id == me:
+                        out.add(tgt.attr)
+                    elif isinstance(n, ast.Call) and any(isinstance(a, ast.Name) and a.id == me for a in n.args):
+                        return None  # the object is handed to other code: anything may change
+        return out
+
+    def _yield_feedback(self, st: State) -> None:
+        fb = self.__dict__.get("_feedback")
+        if fb is None or not self.frames or self.frames[-1].fi.fq != fb[1].fq:
+            return
+        obj, _fi, fields = fb
+        n = self.fresh()
+        if fields is None:
+            self._havoc_object(obj, st, n)
+            return
+        for f_ in fields:
+            k = f"{key(obj)}.{f_}"
+            cur = st.store.get(k)
+            if cur is None:
+                continue
+            cs = self.coll_state(cur, st)
+            if cs is not None:
+                st.store[key(cur)] = dc_replace(cs, exact=False, ver=cs.ver + 100 + n, complete_of=None)
+            elif not isinstance(cur, (FnV, ClsV)):
+                st.store[k] = Opq(f"{k}@Y{n}", self.deps(cur, st), kind="attr")
+
     def _s_For(self, s, st, ctx):
-        if isinstance(s.iter, ast.Call) and not any(isinstance(n, (ast.Break, ast.Return)) for b in s.body for n in ast.walk(b)):
+        complete = not any(isinstance(n, (ast.Break, ast.Return)) for b in s.body for n in ast.walk(b))
+        if isinstance(s.iter, ast.Call) and complete:
             self.eager.add(id(s.iter))
         it = self.eval(s.iter, st, ctx)
+        if st.path[-1:] == [FALSE]:
+            return None
+        it = self.iterate(it, s.iter, st, ctx, s.body, complete)
         if st.path[-1:] == [FALSE]:
             return None
         items = self.exact_items(it, st)
@@ -2197,7 +2284,8 @@ class Sym:
         hc = HandlerCtx(s, types, n=n)
         self.handlers.append(hc)
         try:
-            end = self.block(s.body, st.fork(), ctx)
+            # whatever leaves the body normally (falls through, returns) did so without a handler having been entered
+            end = self.block(s.body, st.fork(f_and([f_not(atom(f"exc#{n}.{i}")) for i in range(len(s.handlers))])), ctx)
         finally:
             self.handlers.pop()
         if end is not None and s.orelse:
